@@ -2639,9 +2639,13 @@ class LogicalBinOpMonad(BoolMonad):
 
 class AndMonad(LogicalBinOpMonad):
     binop = 'AND'
+    def negate(monad):  # De Morgan: each operand negates itself treating a missing value as false
+        return OrMonad([ operand.negate() for operand in monad.operands ])
 
 class OrMonad(LogicalBinOpMonad):
     binop = 'OR'
+    def negate(monad):
+        return AndMonad([ operand.negate() for operand in monad.operands ])
 
 class NotMonad(BoolMonad):
     def __init__(monad, operand):
